@@ -134,8 +134,16 @@ class ReplayChooser(object):
 
     def choose(self, sched, runnable):
         want = None
-        if self.pos < len(self.decisions):
+        # entries that name a process which has already finished (or was
+        # killed) are skipped, not spent: "P0 x N" means "P0 until it is done"
+        while self.pos < len(self.decisions):
             want = self.decisions[self.pos]
+            alive = any((a.name == want or a.data.get("owner") == want) and a.state in ("runnable", "blocked")
+                        for a in sched.actors)
+            if alive:
+                break
+            want = None
+            self.pos += 1
         self.pos += 1
         if want is not None:
             for a in runnable:
